@@ -27,6 +27,15 @@ def main():
     try:
         if mode == "shard":
             mod.run_shard(rec, i, n)
+            from vlib import drive
+            for k, v in (("context:output-paths-prefilled-with-longer-garbage", drive.stale_handed_out["garbage"]),
+                         ("context:output-paths-prefilled-with-an-earlier-output-dated-in-the-future",
+                          drive.stale_handed_out["earlier-output"]),
+                         ("context:decoy-files-placed-in-the-working-directory", drive.decoys_placed[0]),
+                         ("context:real-cli-runs-with-python-O", drive.optimized_runs[0]),
+                         ("context:real-cli-runs-in-an-ascii-locale", drive.ascii_locale_runs[0])):
+                if v:
+                    rec.count(k, v)
         elif mode == "canary":
             rec.extra["canaries"] = [[n_, bool(f)] for n_, f in mod.canaries(rec)]
         else:
